@@ -98,7 +98,7 @@ def scalar_vspec(kind, hard=True, finite=False):
     raise ValueError(kind)
 
 
-def plain_vspec(hard=True, finite=False, dates_ok=True, max_leaves=6):
+def plain_vspec(hard=True, finite=False, dates_ok=True, max_leaves=6, odicts=True):
     kinds = ['str', 'int', 'float', 'bool', 'none'] + (['date'] if dates_ok else [])
     leaf = st.one_of(*[scalar_vspec(k, hard, finite) for k in kinds])
     keys = st.one_of(st.sampled_from(KEY_STRINGS), strings(hard))
@@ -108,7 +108,10 @@ def plain_vspec(hard=True, finite=False, dates_ok=True, max_leaves=6):
             st.lists(ch, max_size=3).map(lambda l: ['list', l]),
             st.lists(st.tuples(keys, ch), max_size=3,
                      unique_by=lambda p: p[0]).map(
-                lambda l: ['dict', [[['str', k], v] for k, v in l]])),
+                lambda l: ['dict', [[['str', k], v] for k, v in l]]),
+            *([st.lists(st.tuples(keys, ch), max_size=3,
+                        unique_by=lambda p: p[0]).map(
+                lambda l: ['odict', [[['str', k], v] for k, v in l]])] if odicts else [])),
         max_leaves=max_leaves)
 
 
